@@ -1,5 +1,5 @@
 (* C16 property theorems: statements only; every proof is [exact lemma]. *)
-From Gv Require Import lib.Bytes C16.Model C16.Spec C16.Proofs gen.Anchors_C16.
+From Gv Require Import lib.Bytes C16.Model C16.Spec C16.Proofs C16.ProofsSound gen.Anchors_C16.
 From Coq Require Import ZArith.
 
 Theorem c16_anchors :
@@ -19,3 +19,27 @@ Theorem c16_ttl_sound_rfc_refuted :
   exists h d t, ttl h d = Some t /\ has_directive true n_no_store h = true.
 Proof. exact ttl_sound_rfc_refuted_proof. Qed.
 Print Assumptions c16_ttl_sound_rfc_refuted.
+
+Theorem c16_ttl_sound_dialect :
+  forall (h : list bytes) (d : Z), storable_ok false h d (ttl h d).
+Proof. exact ttl_sound_dialect. Qed.
+Print Assumptions c16_ttl_sound_dialect.
+
+Theorem c16_readings_agree :
+  forall h : list bytes, no_backslash h = true -> elements true h = elements false h.
+Proof. exact readings_agree. Qed.
+Print Assumptions c16_readings_agree.
+
+Theorem c16_ttl_sound_rfc_no_backslash :
+  forall (h : list bytes) (d : Z), no_backslash h = true -> storable_ok true h d (ttl h d).
+Proof. exact ttl_sound_rfc_no_backslash. Qed.
+Print Assumptions c16_ttl_sound_rfc_no_backslash.
+
+Theorem c16_trim_fuel_ok :
+  forall s : bytes,
+    strip_space_prefix (trim_left (length s) s) = None /\
+    strip_space_suffix_rev (trim_right_rev (length s) s) = None /\
+    (let l := trim_left (length s) s in
+     strip_space_suffix_rev (trim_right_rev (length l) (rev l)) = None).
+Proof. exact trim_space_fuel_ok. Qed.
+Print Assumptions c16_trim_fuel_ok.
